@@ -571,17 +571,25 @@ func (c *Cholesky) SymRankOne(orig *Cholesky, alpha float64, x Vector) (ok bool)
 	if r, c := x.Dims(); r != n || c != 1 {
 		panic(ErrShape)
 	}
-	if orig != c {
+	if orig != c && c.chol != nil && c.chol.mat.N != n {
+		panic(ErrShape)
+	}
+	// copyOrig makes the receiver a copy of orig. It is only called when
+	// the update is known to succeed, so that a failed down-date leaves
+	// the receiver unchanged.
+	copyOrig := func() {
+		if orig == c {
+			return
+		}
 		if c.chol == nil {
 			c.chol = NewTriDense(n, Upper, nil)
-		} else if c.chol.mat.N != n {
-			panic(ErrShape)
 		}
 		c.chol.Copy(orig.chol)
 		c.cond = orig.cond
 	}
 
 	if alpha == 0 {
+		copyOrig()
 		return true
 	}
 
@@ -625,6 +633,7 @@ func (c *Cholesky) SymRankOne(orig *Cholesky, alpha float64, x Vector) (ok bool)
 
 	if alpha > 0 {
 		// Compute rank-1 update.
+		copyOrig()
 		if alpha != 1 {
 			blas64.Scal(math.Sqrt(alpha), blas64.Vector{N: n, Data: work, Inc: 1})
 		}
@@ -662,7 +671,7 @@ func (c *Cholesky) SymRankOne(orig *Cholesky, alpha float64, x Vector) (ok bool)
 		blas64.Scal(alpha, blas64.Vector{N: n, Data: work, Inc: 1})
 	}
 	// Solve Uᵀ * p = x storing the result into work.
-	ok = lapack64.Trtrs(blas.Trans, c.chol.RawTriangular(), blas64.General{
+	ok = lapack64.Trtrs(blas.Trans, orig.chol.RawTriangular(), blas64.General{
 		Rows:   n,
 		Cols:   1,
 		Stride: 1,
@@ -693,9 +702,9 @@ func (c *Cholesky) SymRankOne(orig *Cholesky, alpha float64, x Vector) (ok bool)
 			sin[i] *= -1
 		}
 	}
-	workMat := getTriDenseWorkspace(c.chol.mat.N, c.chol.triKind(), false)
+	workMat := getTriDenseWorkspace(n, orig.chol.triKind(), false)
 	defer putTriWorkspace(workMat)
-	workMat.Copy(c.chol)
+	workMat.Copy(orig.chol)
 	umat := workMat.mat
 	stride := workMat.mat.Stride
 	for i := n - 1; i >= 0; i-- {
@@ -718,6 +727,9 @@ func (c *Cholesky) SymRankOne(orig *Cholesky, alpha float64, x Vector) (ok bool)
 		}
 	}
 	if ok {
+		if c.chol == nil {
+			c.chol = NewTriDense(n, Upper, nil)
+		}
 		c.chol.Copy(workMat)
 		c.updateCond(-1)
 	}
